@@ -669,6 +669,18 @@ class InstrOps:
         lo = self.val(env, ins["low"]) if ins["low"] else None
         hi = self.val(env, ins["high"]) if ins["high"] else None
         mx = self.val(env, ins["max"]) if ins["max"] else None
+        # index operands may be of any integer type (s[a:someUint32]): widen to the 64-bit int used for slice headers
+        rt = fr.fn.get("_regtypes", {})
+
+        def _widen(v, o):
+            if v is None or not o:
+                return v
+            ot = o.get("t") if o["k"] == "const" else rt.get(o.get("n"))
+            ii = self.prog.int_info(ot) if ot else None
+            if ii is not None and ii != (64, True):
+                return int_convert(v, ii[0], ii[1], 64, True)
+            return v
+        lo, hi, mx = _widen(lo, ins["low"]), _widen(hi, ins["high"]), _widen(mx, ins["max"])
         t, d = self.prog.under(ins["xt"])
         if isinstance(x, StrV):
             lo = 0 if lo is None else lo
